@@ -12,7 +12,7 @@ import projects
 PROPS = ["Props/C18.v"]
 E = datetime(1970, 1, 1)
 COLS = ["id", "name", "start", "end", "cost", "priority"]
-FORMATS = [None, "%Y-%m-%d %H:%M", "%d.%m.%Y", "%Y-%m-%d-%H:%M", "%H:%M %a %b %d"]
+FORMATS = [None, "%Y-%m-%d %H:%M", "%d.%m.%Y", "%Y-%m-%d-%H:%M", "%H:%M %a %b %d", "%a, %d %b %Y %H:%M"]
 
 
 def add_reports(rng, ap):
